@@ -75,6 +75,7 @@ KEPT_MIN = 0.9
 TOL_ID = 1e-9      # filter + delay reference vs implementation, relative to max |reference|
 TOL_ZERO = {"f8": 1e-12, "f4": 1e-5}
 TOL_COLL = 1e-12
+TOL_KMODEL = {"f8": 1e-9, "f4": 1e-5}   # measured on the unchanged tree: 0 (float64), 4e-8 (float32)
 TOL_AGC = {"f8": 1e-12, "f4": 1e-6}
 DT = {"f8": np.float64, "f4": np.float32}
 
@@ -177,26 +178,210 @@ def _labels(spec, h, nc):
     return lab
 
 
-def _destripe(ctx, kind, case, x, fs, h, labels):
-    vo = sut.voltage()
-    P = PROBES[case["probe"]]
-    kw = {}
-    if labels is not None:
-        kw["channel_labels"] = labels.copy()
-    if case.get("lfp"):
-        return ctx.call(kind, vo.destripe_lfp, x, fs, h=copy.deepcopy(h), k_filter=case["kf"], **kw)
-    if case.get("kk") is not None:
-        kw["k_kwargs"] = copy.deepcopy(case["kk"])
-    if case.get("hmode") == "ver":
-        return ctx.call(kind, vo.destripe, x, fs, neuropixel_version=P["version"], k_filter=case["kf"], **kw)
-    return ctx.call(kind, vo.destripe, x, fs, h=copy.deepcopy(h), neuropixel_version=P["version"], k_filter=case["kf"], **kw)
-
-
 def _shape_ok(ctx, y, shape, kind):
     ok = isinstance(y, np.ndarray) and y.shape == tuple(shape)
     if not ctx.check(ok, kind + ".shape", lambda: f"returned {type(y).__name__} of shape {getattr(y, 'shape', None)}, expected {tuple(shape)}"):
         return False
     return ctx.check(bool(np.all(np.isfinite(y))), kind + ".finite", "output contains NaN or Inf")
+
+
+# ------------------------------------------------------------------------------------------------
+# call forms, memory layouts and argument bookkeeping (options / re-use / arguments / layout dimensions)
+
+LAYOUTS_BIG = ["C", "F", "sliced", "neg", "ro", "ro_F"]     # destripe inputs (384 x ns): no layout that doubles the memory
+LAYOUTS_SMALL = ["C", "F", "strided", "neg", "ro"]          # car / kfilt / fk / agc inputs
+LAB_DT = {"f8": np.float64, "f4": np.float32, "i8": np.int64, "i1": np.int8, "u1": np.uint8}
+TOL_REPEAT = 1e-12
+
+
+def _lay(x, layout):
+    """The values of the 2-D array x as a new array object in the drawn memory layout. F: Fortran order (what `block.T`
+    of a (samples, channels) reader block is); sliced: a window of a larger array (rows not adjacent in memory);
+    strided: every other row and column of a larger array; neg: negative strides on both axes; ro / ro_F: read-only
+    (what np.memmap(mode='r') hands out)."""
+    x = np.asarray(x)
+    n0, n1 = x.shape
+    if layout in ("F", "ro_F"):
+        v = np.array(x, order="F")
+    elif layout == "sliced":
+        big = np.zeros((n0 + 3, n1 + 5), x.dtype)
+        big[2:-1, 3:-2] = x
+        v = big[2:-1, 3:-2]
+    elif layout == "strided":
+        big = np.zeros((2 * n0, 2 * n1 + 1), x.dtype)
+        big[::2, 1::2] = x
+        v = big[::2, 1::2]
+    elif layout == "neg":
+        v = np.array(x[::-1, ::-1], order="C")[::-1, ::-1]
+    else:
+        v = np.array(x, order="C")
+    if layout.startswith("ro"):
+        v.flags.writeable = False
+    return v
+
+
+def _eq(a, b):
+    """Same type, structure and values (arguments before / after a call)."""
+    if isinstance(a, dict):
+        return isinstance(b, dict) and list(a.keys()) == list(b.keys()) and all(_eq(a[k], b[k]) for k in a)
+    if isinstance(a, np.ndarray):
+        if not (isinstance(b, np.ndarray) and a.dtype == b.dtype and a.shape == b.shape):
+            return False
+        try:
+            return bool(np.array_equal(a, b, equal_nan=True))
+        except TypeError:
+            return bool(np.array_equal(a, b))
+    if isinstance(a, (list, tuple)):
+        return type(a) is type(b) and len(a) == len(b) and all(_eq(u, v) for u, v in zip(a, b))
+    return type(a) is type(b) and (a == b or (a != a and b != b))
+
+
+def _args_untouched(ctx, kw, snap, what):
+    bad = sorted(set(k for k in snap if k not in kw or not _eq(kw[k], snap[k])) | set(k for k in kw if k not in snap))
+    return ctx.check(not bad, "C05.argument_modified", lambda: f"{what} changed its argument(s) {bad} in place")
+
+
+def _input_untouched(ctx, x_in, x_ref, what):
+    same = isinstance(x_in, np.ndarray) and x_in.shape == x_ref.shape and bool(np.array_equal(x_in, x_ref))
+    return ctx.check(same, "C05.input_modified", lambda: f"{what} changed the caller's data array in place")
+
+
+def _butter_kw(case, fs):
+    """butter_kwargs of a destripe case: None = left at its default, 'explicit' = the documented default written out,
+    or {'N', 'fc' (Hz; [lo, hi] = band-pass), 'form'} with form fs (Wn in Hz + fs), norm (Wn / Nyquist) or array."""
+    b = case.get("butter")
+    lfp = bool(case.get("lfp"))
+    if b is None:
+        return None
+    if b == "explicit":
+        if lfp:
+            return {"N": 3, "Wn": [0.5, 300], "btype": "bandpass", "fs": fs}
+        return {"N": 3, "Wn": 300 / fs * 2, "btype": "highpass"}
+    band = isinstance(b["fc"], list)
+    out = {"N": int(b["N"]), "btype": "bandpass" if band else "highpass"}
+    if b["form"] == "fs":
+        out["Wn"] = list(b["fc"]) if band else b["fc"]
+        out["fs"] = fs
+    elif b["form"] == "array":
+        out["Wn"] = np.array(b["fc"], dtype=float) / fs * 2
+    else:
+        out["Wn"] = [f / fs * 2 for f in b["fc"]] if band else b["fc"] / fs * 2
+    return out
+
+
+def _sos_case(case, fs, lfp):
+    """The temporal filter of the case designed in the harness (same parametrisation as handed to the code under test)."""
+    bk = _butter_kw(case, fs)
+    if bk is None:
+        return _sos(fs, lfp)
+    return scipy.signal.butter(**bk, output="sos")
+
+
+def _dargs(case, h, labels, fs):
+    """Function and keyword arguments (objects that are re-used for every call of the case) in the drawn call form.
+    hmode: h = header + neuropixel_version, ver = only neuropixel_version (destripe_lfp: nothing, its default is the NP1
+    header), h_only = header with neuropixel_version left at its default, none = header + neuropixel_version=None
+    (documented: no ADC correction). kf_form default = k_filter omitted where the drawn value is the default."""
+    vo = sut.voltage()
+    P = PROBES[case["probe"]]
+    lfp = bool(case.get("lfp"))
+    hmode = case.get("hmode", "h")
+    ro = bool(case.get("aux_ro"))
+    kw = {}
+    if labels is True:
+        kw["channel_labels"] = True
+    elif labels is not None:
+        lab = np.array(labels).astype(LAB_DT[case.get("lab_dtype", "f8")])
+        if ro:
+            lab.flags.writeable = False
+        kw["channel_labels"] = lab
+    hh = {k: np.array(v) for k, v in h.items()}
+    if ro:
+        for v in hh.values():
+            v.flags.writeable = False
+    bk = _butter_kw(case, fs)
+    if bk is not None:
+        kw["butter_kwargs"] = bk
+    if not (case.get("kf_form") == "default" and bool(case["kf"]) == (not lfp)):
+        kw["k_filter"] = case["kf"]
+    if lfp:
+        if hmode != "ver":
+            kw["h"] = hh
+        return vo.destripe_lfp, kw
+    if case.get("kk") is not None:
+        kw["k_kwargs"] = copy.deepcopy(case["kk"])
+    if hmode == "ver":
+        kw["neuropixel_version"] = P["version"]
+    elif hmode == "h_only":
+        kw["h"] = hh
+    elif hmode == "none":
+        kw["h"] = hh
+        kw["neuropixel_version"] = None
+    else:
+        kw["h"] = hh
+        kw["neuropixel_version"] = P["version"]
+    return vo.destripe, kw
+
+
+def _eff_shifts(case, nc):
+    """ADC delays the recording of the case carries: none when the call says neuropixel_version=None."""
+    if case.get("hmode") == "none":
+        return np.zeros(nc)
+    return _shifts(case["probe"], nc)
+
+
+def _dim_labels(case, ctx):
+    ctx.label("layout_" + case.get("layout", "C"), "kf_form_" + case.get("kf_form", "explicit"),
+              "butter_" + ("default" if case.get("butter") is None else "explicit" if case.get("butter") == "explicit" else "custom"))
+    if case.get("aux_ro"):
+        ctx.label("header_labels_readonly")
+    if case.get("labels") is not None:
+        ctx.label("labels_dtype_" + case.get("lab_dtype", "f8"))
+
+
+def _pollute_destripe(ctx, kind, case, fn, kw, x, fs, nc):
+    """A call of the same function with DIFFERENT arguments of the same shape (other probe header / version, other
+    labels, other data) between two calls with the same arguments. Only a crash is reported."""
+    other = PROBE_NAMES[(PROBE_NAMES.index(case["probe"]) + 1) % len(PROBE_NAMES)]
+    kw2 = copy.deepcopy(kw)
+    if "h" in kw2 or fn is sut.voltage().destripe_lfp:
+        h2 = _header(ctx, other, nc)
+        if h2 is ctx.CRASH:
+            return h2
+        kw2["h"] = h2
+    else:
+        kw2["neuropixel_version"] = 1 if PROBES[case["probe"]]["version"] == 2 else 2
+    if isinstance(kw2.get("channel_labels"), np.ndarray):
+        kw2["channel_labels"] = np.array(kw2["channel_labels"][::-1])
+    elif "channel_labels" not in kw2:
+        lab2 = np.zeros(nc)
+        lab2[-24:] = 3
+        lab2[[40, 41]] = 1
+        kw2["channel_labels"] = lab2
+    x2 = np.array(x[::-1, ::-1] * 1.5, dtype=x.dtype, order="C")
+    return ctx.call(kind, fn, x2, fs, **kw2)
+
+
+def _repeat_destripe(ctx, kind, case, fn, kw, snap, x_in, x, fs, y, what):
+    """Second call with the SAME argument objects (optionally after a call with different ones): same answer."""
+    nc, ns = x.shape
+    mode = case.get("reuse")
+    ctx.label("reuse_" + str(mode))
+    if mode == "polluted":
+        if _pollute_destripe(ctx, kind, case, fn, kw, x, fs, nc) is ctx.CRASH:
+            return
+    y2 = ctx.call(kind, fn, x_in, fs, **kw)
+    if y2 is ctx.CRASH or not _shape_ok(ctx, y2, (nc, ns), "C05.destripe"):
+        return
+    scale = float(np.max(np.abs(y))) or 1.0
+    err = float(np.max(np.abs(y2 - y))) / scale
+    ctx.stat("repeat_call_rel_diff", err)
+    ctx.check(err <= TOL_REPEAT, "C05.repeat_call",
+              lambda: f"{what}: a second call with the same argument objects"
+                      f"{' after a call with another header / labels / data' if mode == 'polluted' else ''} differs from the "
+                      f"first by {err:.3g} of the output scale")
+    _input_untouched(ctx, x_in, x, what)
+    _args_untouched(ctx, kw, snap, what)
 
 
 # ------------------------------------------------------------------------------------------------
@@ -248,13 +433,45 @@ def _st_ns(draw, case):
     return draw(st.integers(4000, 12000))
 
 
+def _st_butter(draw, lfp):
+    """butter_kwargs: left at the default (2 of 3), the default written out, or another corner / order in one of the
+    parametrisations scipy accepts (the LFP resampler of the repository builds Wn as an array)."""
+    k = draw(st.integers(0, 8))
+    if k < 6:
+        return None
+    if k == 6:
+        return "explicit"
+    if lfp:
+        return {"N": draw(st.sampled_from([2, 3])), "fc": draw(st.sampled_from([[0.5, 300.0], [2.0, 200.0], [1.0, 400.0]])),
+                "form": draw(st.sampled_from(["fs", "norm", "array"]))}
+    return {"N": draw(st.sampled_from([2, 3, 4])), "fc": draw(st.sampled_from([150.0, 300.0, 600.0])),
+            "form": draw(st.sampled_from(["fs", "norm", "array"]))}
+
+
+def _st_hmode(draw, probe, lfp, nc):
+    """How the probe geometry / ADC table reaches the call (see _dargs)."""
+    if lfp:
+        return "ver" if (probe == "NP1" and nc == 384 and draw(st.booleans())) else "h"
+    if probe != "NP2.4" and nc == 384 and draw(st.integers(0, 3)) == 0:
+        return "ver"
+    return draw(st.sampled_from(["h", "h", "h", "h_only", "h_only", "none"]))
+
+
+def _st_dims(draw, case):
+    """Memory layout of the data, read-only header / label arrays, dtype of the label vector, k_filter given or defaulted."""
+    case["layout"] = draw(st.sampled_from(["C", "C", "F", "F", "sliced", "neg", "ro", "ro_F"]))
+    case["aux_ro"] = draw(st.integers(0, 3)) == 0
+    case["lab_dtype"] = draw(st.sampled_from(["f8", "f8", "i8", "i1", "u1", "f4"])) if case.get("labels") else "f8"
+    case["kf_form"] = draw(st.sampled_from(["explicit", "default"]))
+
+
 @st.composite
 def _st_stripe(draw):
     probe = draw(st.sampled_from(PROBE_NAMES))
     lfp = draw(st.integers(0, 5)) == 0
     kf = draw(st.booleans())
     nc = draw(st.sampled_from([384, 384, 384, 192]))
-    hmode = "ver" if (not lfp and probe != "NP2.4" and nc == 384 and draw(st.integers(0, 3)) == 0) else "h"
+    hmode = _st_hmode(draw, probe, lfp, nc)
     mode = "env" if lfp else draw(st.sampled_from(["env", "env", "periodic", "cont"]))
     env = None
     if mode == "env":
@@ -269,7 +486,12 @@ def _st_stripe(draw):
             "dtype": "f4" if draw(st.integers(0, 4)) == 0 else "f8",
             "kk": None if lfp else _st_kk(draw, kf),
             "labels": _st_labels(draw, far=False, need3=False) if draw(st.integers(0, 2)) == 0 else None}
-    case["ns"] = _st_ns(draw, case)
+    case["butter"] = _st_butter(draw, lfp)
+    _st_dims(draw, case)
+    # re-use: the same argument objects a second time (1 in 6), or after a call with another header / labels / data (1 in 10)
+    k = draw(st.integers(0, 29))
+    case["reuse"] = "same" if k < 5 else ("polluted" if k < 8 else None)
+    case["ns"] = draw(st.integers(4000, 6000)) if case["reuse"] else _st_ns(draw, case)
     return case
 
 
@@ -283,7 +505,10 @@ def _st_spike(draw):
         labels["iso3"] = 0
     where = draw(st.sampled_from(["bottom", "top", "any"]))
     sel = {"mode": where, "k": draw(st.integers(0, 7))} if where != "any" else {"mode": "any", "u": round(draw(st.floats(0, 0.999)), 4)}
-    case = {"t": "spike", "probe": probe, "kf": kf, "nc": nc, "hmode": "h", "lfp": False, "kk": None, "labels": labels,
+    hmode = draw(st.sampled_from(["h", "h", "h", "h_only"]))
+    if probe != "NP2.4" and nc == 384 and draw(st.integers(0, 5)) == 0:
+        hmode = "ver"
+    case = {"t": "spike", "probe": probe, "kf": kf, "nc": nc, "hmode": hmode, "lfp": False, "kk": None, "labels": labels,
             "site_sel": sel, "nsites": draw(st.integers(1, 8)), "p": round(draw(st.one_of(st.just(2.0), st.floats(2.0, 4.0))), 3),
             "amp_uv": round(draw(st.one_of(st.sampled_from([50.0, 500.0]), st.floats(50, 500))), 2),
             "bg_uv": round(draw(st.one_of(st.sampled_from([2.0, 10.0]), st.floats(2, 10))), 2),
@@ -291,6 +516,7 @@ def _st_spike(draw):
             "tmpl": draw(st.sampled_from(["ricker", "dgauss", "gauss"])),
             "sig": round(draw(st.one_of(st.sampled_from([1.5, 5.0]), st.floats(1.5, 5.0))), 3),
             "t0": round(draw(st.floats(0.3, 0.7)), 5), "bg_seed": draw(st.integers(0, 2 ** 31))}
+    _st_dims(draw, case)
     case["ns"] = _st_ns(draw, case)
     return case
 
@@ -299,12 +525,18 @@ def _st_spike(draw):
 def _st_labels_case(draw):
     probe = draw(st.sampled_from(PROBE_NAMES))
     lfp = draw(st.integers(0, 7)) == 0
-    case = {"t": "labels", "probe": probe, "lfp": lfp, "kf": draw(st.booleans()), "nc": draw(st.sampled_from([384, 384, 192])),
-            "hmode": "h", "kk": None, "labels": _st_labels(draw, far=True, need3=True),
+    nc = draw(st.sampled_from([384, 384, 192]))
+    case = {"t": "labels", "probe": probe, "lfp": lfp, "kf": draw(st.booleans()), "nc": nc,
+            "hmode": _st_hmode(draw, probe, lfp, nc), "kk": None, "labels": _st_labels(draw, far=True, need3=True),
             "comps": _st_comps(draw, lfp)[:2], "amp_uv": draw(st.sampled_from([0.0, 50.0, 500.0])),
             "bg_uv": draw(st.sampled_from([2.0, 5.0, 10.0])), "bg_seed": draw(st.integers(0, 2 ** 31)),
             "alt_seed": draw(st.integers(0, 2 ** 31)), "alt_gain": draw(st.sampled_from([0.0, 1.0, 30.0, 1000.0]))}
     case["ns"] = draw(st.integers(4000, 8000))
+    case["butter"] = _st_butter(draw, lfp)
+    _st_dims(draw, case)
+    case["dtype"] = "f4" if draw(st.integers(0, 3)) == 0 else "f8"
+    case["alt_bad"] = draw(st.booleans())
+    case["lab_mode"] = "true" if draw(st.integers(0, 3)) == 0 else "array"
     return case
 
 
@@ -324,6 +556,8 @@ def _st_coll(draw):
     groups = _st_groups(draw)
     if fn == "car" and draw(st.integers(0, 3)) == 0:
         groups = None
+    if fn == "kfilt" and draw(st.integers(0, 3)) == 0:
+        groups = None   # no collection: the call is compared with the reference model of kfilt directly
     gmin = min(groups["sizes"]) if groups else 16
     case = {"t": "coll", "fn": fn, "groups": groups, "nc1": draw(st.integers(16, 64)), "seed": draw(st.integers(0, 2 ** 31)),
             "scale": draw(st.sampled_from([1.0, 1e-5, 300.0]))}
@@ -336,14 +570,13 @@ def _st_coll(draw):
             s["operator"] = op
         if draw(st.integers(0, 3)) == 0:
             s.update({"ntr_pad": 60, "ntr_tap": 0, "lagc": 3000})   # destripe hands its k_kwargs to car
-        case["dtype"] = "f4" if draw(st.integers(0, 4)) == 0 else "f8"
     elif fn == "kfilt":
         if draw(st.integers(0, 3)) != 0:
             s["lagc"] = draw(st.sampled_from([None, 0, 21, 76, 1000, 300]))
+        if draw(st.integers(0, 2)) != 0:   # none, a few, more than a quarter of the channels of the smallest group
+            s["ntr_pad"] = draw(st.one_of(st.integers(0, min(12, gmin)), st.integers(gmin // 4 + 1, gmin)))
         if draw(st.booleans()):
-            s["ntr_pad"] = draw(st.integers(0, min(12, gmin)))
-        if draw(st.booleans()):
-            s["ntr_tap"] = draw(st.integers(0, 8))
+            s["ntr_tap"] = draw(st.one_of(st.none(), st.integers(0, 8)))
         if draw(st.booleans()):
             s["butter_kwargs"] = {"N": draw(st.integers(1, 4)), "Wn": draw(st.sampled_from([0.02, 0.1, 0.25, 0.4])),
                                   "btype": draw(st.sampled_from(["highpass", "highpass", "lowpass"]))}
@@ -370,6 +603,10 @@ def _st_coll(draw):
         if s.get("lagc"):
             wins.append(_ns_win(s["lagc"], si))
     case["s"] = s
+    case["dtype"] = "f4" if draw(st.integers(0, 4)) == 0 else "f8"
+    case["layout"] = draw(st.sampled_from(LAYOUTS_SMALL))
+    case["coll_ro"] = draw(st.integers(0, 3)) == 0
+    case["reuse"] = draw(st.sampled_from([None, None, "same", "polluted"]))
     if draw(st.integers(0, 9)) == 0:   # batch length + AGC window == 3^k (odd FFT size in the gain convolution)
         cand = [p - w for p in (243, 729) for w in wins if 48 <= p - w <= 700]
         if cand:
@@ -381,6 +618,9 @@ def _st_coll(draw):
 @st.composite
 def _st_agc(draw, tier):
     ns_win = 2 * draw(st.one_of(st.integers(0, 40), st.integers(0, 2000))) + 1
+    form = "default" if draw(st.integers(0, 5)) == 0 else "explicit"
+    if form == "default":
+        ns_win = 251   # agc(x): wl=0.5 s at si=0.002 s
     if draw(st.integers(0, 11)) == 0:
         kmax = 8 if tier == "thorough" else 7
         tot = 3 ** draw(st.integers(3, kmax))
@@ -395,8 +635,13 @@ def _st_agc(draw, tier):
     wl = (ns_win - 1 + draw(st.sampled_from([0.0, 0.4, -0.4]))) * si
     if _ns_win(wl, si) != ns_win:
         wl = (ns_win - 1) * si
+    if form == "default" and ns_win == 251:
+        wl, si = 0.5, 0.002
+    else:
+        form = "explicit"
     nc = draw(st.integers(1, 24))
-    return {"t": "agc", "nc": nc, "ns": ns, "wl": wl, "si": si, "ns_win": ns_win, "pow3": pow3,
+    return {"t": "agc", "nc": nc, "ns": ns, "wl": wl, "si": si, "ns_win": ns_win, "pow3": pow3, "form": form,
+            "layout": draw(st.sampled_from(["C", "C", "F", "strided", "neg"])), "again": draw(st.integers(0, 2)) == 0,
             "eps": draw(st.sampled_from([None, None, 1e-8, 1e-6, 1e-3, 1.0])),
             "dtype": "f4" if draw(st.integers(0, 4)) == 0 else "f8",
             "scale": draw(st.sampled_from([1.0, 1e-5, 1e-6, 3e4])),
@@ -515,9 +760,10 @@ def _run_stripe(case, ctx):
     h = _header(ctx, case["probe"], nc)
     if h is ctx.CRASH:
         return
-    shifts = _shifts(case["probe"], nc)
+    shifts = _eff_shifts(case, nc)
     labels = _labels(case["labels"], h, nc)
     _common_labels(case, ctx, labels)
+    _dim_labels(case, ctx)
     ctx.label("stripe_" + case["mode"], "dtype_" + case["dtype"], "kk_custom" if case["kk"] is not None else "kk_default")
     if case["kk"] and case["kk"].get("operator"):
         ctx.label("car_" + case["kk"]["operator"])
@@ -527,10 +773,18 @@ def _run_stripe(case, ctx):
     if hi and np.any(shifts != 0):
         ctx.nontrivial = True
     x = _stripe(case["comps"], case["mode"], case["env"], case["amp_uv"], shifts, ns, fs).astype(DT[case["dtype"]])
-    y = _destripe(ctx, "C05.destripe_lfp" if lfp else "C05.destripe", case, x.copy(), fs, h, labels)
+    kind_call = "C05.destripe_lfp" if lfp else "C05.destripe"
+    what = "destripe_lfp" if lfp else "destripe"
+    x_in = _lay(x, case.get("layout", "C"))
+    fn, kw = _dargs(case, h, labels, fs)
+    snap = copy.deepcopy(kw)
+    y = ctx.call(kind_call, fn, x_in, fs, **kw)
     if y is ctx.CRASH or not _shape_ok(ctx, y, (nc, ns), "C05.destripe"):
         return
-    ref = scipy.signal.sosfiltfilt(_sos(fs, lfp), x)
+    # callers keep using the raw block and the header after destriping (the repository's CSD example filters `raw` again)
+    _input_untouched(ctx, x_in, x, what)
+    _args_untouched(ctx, kw, snap, what)
+    ref = scipy.signal.sosfiltfilt(_sos_case(case, fs, lfp), x)
     good = np.flatnonzero(labels == 0) if labels is not None else np.arange(nc)
     interp = np.flatnonzero((labels == 1) | (labels == 2)) if labels is not None else np.arange(0)
     sl = slice(ns // 4, ns - ns // 4)
@@ -559,6 +813,8 @@ def _run_stripe(case, ctx):
                           f"{case['probe']}, {int(interp.size)} channels labelled 1/2")
     if labels is not None:
         _check_outside(ctx, y, ref, shifts, labels)
+    if case.get("reuse"):
+        _repeat_destripe(ctx, kind_call, case, fn, kw, snap, x_in, x, fs, y, what)
 
 
 _BG_CACHE = {}
@@ -573,6 +829,7 @@ def _run_spike(case, ctx):
     shifts = _shifts(case["probe"], nc)
     labels = _labels(case["labels"], h, nc)
     _common_labels(case, ctx, labels)
+    _dim_labels(case, ctx)
     inside = np.flatnonzero(labels != 3) if labels is not None else np.arange(nc)
     sel = case["site_sel"]
     if sel["mode"] == "abs":
@@ -603,17 +860,28 @@ def _run_spike(case, ctx):
         if k == 0:
             sp0 = a * _template(case["tmpl"], n - t0, case["sig"])
     key = json.dumps([str(sut.voltage().__file__), case["probe"], nc, ns, kf, case["bg_seed"], case["bg_uv"], case["common_uv"],
-                      case["labels"]], sort_keys=True)
+                      case["labels"], case.get("layout", "C"), case.get("hmode", "h"), case.get("kf_form", "explicit"),
+                      case.get("lab_dtype", "f8"), bool(case.get("aux_ro"))], sort_keys=True)
+    layout = case.get("layout", "C")
+    fn, kw = _dargs(case, h, labels, fs)   # the same header / label / option objects serve both calls
+    snap = copy.deepcopy(kw)
     y0 = _BG_CACHE.get(key)
     if y0 is None:
-        y0 = _destripe(ctx, "C05.destripe", case, bg.copy(), fs, h, labels)
+        bg_in = _lay(bg, layout)
+        y0 = ctx.call("C05.destripe", fn, bg_in, fs, **kw)
         if y0 is ctx.CRASH or not _shape_ok(ctx, y0, (nc, ns), "C05.destripe"):
             return
+        _input_untouched(ctx, bg_in, bg, "destripe")
+        del bg_in
         _BG_CACHE.clear()
         _BG_CACHE[key] = y0
-    y1 = _destripe(ctx, "C05.destripe", case, x1.copy(), fs, h, labels)
+    x1_in = _lay(x1, layout)
+    y1 = ctx.call("C05.destripe", fn, x1_in, fs, **kw)
     if y1 is ctx.CRASH or not _shape_ok(ctx, y1, (nc, ns), "C05.destripe"):
         return
+    _input_untouched(ctx, x1_in, x1, "destripe")
+    _args_untouched(ctx, kw, snap, "destripe")
+    del x1_in
     ref = scipy.signal.sosfiltfilt(_sos(fs, False), sp0)
     i = int(np.argmax(np.abs(ref)))
     kept = float((y1[site, i] - y0[site, i]) / ref[i])
@@ -646,35 +914,71 @@ def _run_labels(case, ctx):
     h = _header(ctx, case["probe"], nc)
     if h is ctx.CRASH:
         return
-    shifts = _shifts(case["probe"], nc)
+    shifts = _eff_shifts(case, nc)
     labels = _labels(case["labels"], h, nc)
     _common_labels(case, ctx, labels)
-    l3 = labels == 3
-    if l3.any() and (~l3).any():
-        ctx.nontrivial = True
+    _dim_labels(case, ctx)
+    dtype = case.get("dtype", "f8")
+    layout = case.get("layout", "C")
+    ctx.label("dtype_" + dtype)
     rng = np.random.default_rng(case["bg_seed"])
     x = rng.standard_normal((nc, ns)) * (case["bg_uv"] * 1e-6)
     if case["amp_uv"]:
         x += _stripe(case["comps"], "cont", None, case["amp_uv"], shifts, ns, fs)
+    kind = "C05.destripe_lfp" if lfp else "C05.destripe"
+    what = "destripe_lfp" if lfp else "destripe"
+    if case.get("lab_mode") == "true":
+        _run_labels_true(case, ctx, x.astype(DT[dtype]), fs, h, kind, what)
+        return
+    l3 = labels == 3
+    bad = (labels == 1) | (labels == 2)
+    if l3.any() and (~l3).any():
+        ctx.nontrivial = True
     x2 = x.copy()
     rng2 = np.random.default_rng(case["alt_seed"])
     x2[l3] = rng2.standard_normal((int(l3.sum()), ns)) * (case["bg_uv"] * 1e-6 * case["alt_gain"])
+    x3 = None
+    if case.get("alt_bad") and bad.any():
+        # channels labelled 1 (dead) / 2 (noisy) are rebuilt from their good neighbours: what they recorded is irrelevant
+        ctx.label("alt_bad_channels")
+        x3 = x2.copy()
+        x2[bad] = rng2.standard_normal((int(bad.sum()), ns)) * (case["bg_uv"] * 1e-6 * max(case["alt_gain"], 1.0))
     ctx.label("alt_gain_%g" % case["alt_gain"])
-    kind = "C05.destripe_lfp" if lfp else "C05.destripe"
-    y = _destripe(ctx, kind, case, x.copy(), fs, h, labels)
+    x, x2 = x.astype(DT[dtype]), x2.astype(DT[dtype])
+    fn, kw = _dargs(case, h, labels, fs)   # the same header / label / option objects serve both calls
+    snap = copy.deepcopy(kw)
+    x_in = _lay(x, layout)
+    y = ctx.call(kind, fn, x_in, fs, **kw)
     if y is ctx.CRASH or not _shape_ok(ctx, y, (nc, ns), "C05.destripe"):
         return
-    y2 = _destripe(ctx, kind, case, x2.copy(), fs, h, labels)
+    _input_untouched(ctx, x_in, x, what)
+    del x_in
+    x2_in = _lay(x2, layout)
+    y2 = ctx.call(kind, fn, x2_in, fs, **kw)
     if y2 is ctx.CRASH or not _shape_ok(ctx, y2, (nc, ns), "C05.destripe"):
         return
+    _input_untouched(ctx, x2_in, x2, what)
+    _args_untouched(ctx, kw, snap, what)
+    del x2_in
     same = np.array_equal(y[~l3], y2[~l3])
     if not same:
         dmax = float(np.max(np.abs(y[~l3] - y2[~l3])))
         ctx.stat("labels_leak_abs", dmax)
-    ctx.check(same, "C05.outside_excluded",
-              lambda: f"changing the data of the {int(l3.sum())} channels labelled 3 changes the other output channels by up "
-                      f"to {dmax:.3g} V (input noise {case['bg_uv']} uV)")
-    sos = _sos(fs, lfp)
+        from_bad = False
+        if x3 is not None:   # diagnosis only: which of the two replacements leaks
+            y3 = ctx.call(kind, fn, _lay(x3.astype(DT[dtype]), layout), fs, **kw)
+            if y3 is ctx.CRASH or not _shape_ok(ctx, y3, (nc, ns), "C05.destripe"):
+                return
+            from_bad = bool(np.array_equal(y[~l3], y3[~l3]))
+        if from_bad:
+            ctx.fail("C05.bad_channel_data_used",
+                     f"changing the data recorded on the {int(bad.sum())} channels labelled 1/2 (which are rebuilt from their "
+                     f"neighbours) changes the output by up to {dmax:.3g} V (input noise {case['bg_uv']} uV)")
+        else:
+            ctx.fail("C05.outside_excluded",
+                     f"changing the data of the {int(l3.sum())} channels labelled 3 changes the other output channels by up "
+                     f"to {dmax:.3g} V (input noise {case['bg_uv']} uV)")
+    sos = _sos_case(case, fs, lfp)
     for xx, yy in ((x, y), (x2, y2)):
         full = np.zeros((nc, ns))
         full[l3] = scipy.signal.sosfiltfilt(sos, xx[l3])
@@ -682,6 +986,47 @@ def _run_labels(case, ctx):
             _check_outside(ctx, yy, full, shifts, labels)
         else:
             ctx.check(not np.any(yy[l3]), "C05.outside_untouched", "all-zero channels labelled 3 come back non-zero")
+
+
+def _run_labels_true(case, ctx, x, fs, h, kind, what):
+    """channel_labels=True ('deduces the bad channels from the data provided'): the answer is the one for the labels that
+    the repository's detector gives for this very batch. destripe_lfp runs the detector with settings of its own that
+    no docstring states: only the shape and finiteness of its answer are asserted."""
+    nc, ns = x.shape
+    lfp = bool(case.get("lfp"))
+    ctx.label("labels_true")
+    # a dead and a loud channel so that the detector has something to report
+    x = x.copy()
+    x[nc // 3] = 0
+    x[nc // 2] *= 40
+    fn, kw = _dargs(case, h, True, fs)
+    snap = copy.deepcopy(kw)
+    x_in = _lay(x, case.get("layout", "C"))
+    y = ctx.call(kind, fn, x_in, fs, **kw)
+    if y is ctx.CRASH or not _shape_ok(ctx, y, (nc, ns), "C05.destripe"):
+        return
+    _input_untouched(ctx, x_in, x, what)
+    _args_untouched(ctx, kw, snap, what)
+    if lfp:
+        return
+    det = ctx.call("C05.detect_bad_channels", sut.voltage().detect_bad_channels, x.copy(), fs)
+    if det is ctx.CRASH:
+        return
+    ok = isinstance(det, tuple) and len(det) == 2 and isinstance(det[0], np.ndarray) and det[0].shape == (nc,)
+    if not ctx.check(ok, "C05.detect_bad_channels.shape", "detect_bad_channels does not return (labels of length nc, features)"):
+        return
+    ctx.nontrivial = bool(np.any(det[0] != 0))
+    kw2 = dict(kw)
+    kw2["channel_labels"] = det[0].copy()
+    y_exp = ctx.call(kind, fn, x.copy(), fs, **kw2)
+    if y_exp is ctx.CRASH or not _shape_ok(ctx, y_exp, (nc, ns), "C05.destripe"):
+        return
+    scale = float(np.max(np.abs(y_exp))) or 1.0
+    err = float(np.max(np.abs(y - y_exp))) / scale
+    ctx.stat("labels_true_rel_diff", err)
+    ctx.check(err <= TOL_REPEAT, "C05.labels_true",
+              lambda: f"destripe(channel_labels=True) differs by {err:.3g} of the output scale from destripe with the labels "
+                      f"detect_bad_channels gives for the same batch ({int(np.sum(det[0] != 0))} channels flagged)")
 
 
 # ---- collections / referencing
@@ -707,11 +1052,54 @@ def _collection(g, nc_default):
     return coll, coll.size
 
 
-def _same(a, b, scale):
+def _same(a, b, scale, tol=TOL_COLL):
     if np.array_equal(a, b):
         return True, 0.0
-    d = float(np.max(np.abs(a - b))) / scale
-    return d <= TOL_COLL, d
+    d = float(np.max(np.abs(np.asarray(a, dtype=np.float64) - np.asarray(b, dtype=np.float64)))) / scale
+    return d <= tol, d
+
+
+def _cos_ramp(b0, b1, i):
+    """0 up to b0, 1 from b1 on, half a cosine period in between (utils.fcn_cosine: 'soft thresholding ... cosine taper')."""
+    i = np.asarray(i, dtype=float)
+    out = (1 - np.cos((i - b0) / (b1 - b0) * np.pi)) / 2
+    out[i <= b0] = 0
+    out[i >= b1] = 1
+    return out
+
+
+def _kfilt_model(ctx, x, s):
+    """kfilt without collection as its docstring describes it: automatic gain control over lagc samples (the repository's
+    agc with si=1, checked on its own by the agc cases), ntr_pad mirrored traces on each side, cosine apodisation over
+    ntr_tap traces on each side of the padded array (ntr_tap=None: ntr_pad), zero-phase Butterworth along the channels,
+    padding removed, gain multiplied back."""
+    x = np.array(x, order="C")
+    nx, ns = x.shape
+    bk = s.get("butter_kwargs") or {"N": 3, "Wn": 0.1, "btype": "highpass"}
+    pad = int(s.get("ntr_pad", 0))
+    tap = s.get("ntr_tap")
+    tap = pad if tap is None else tap
+    lagc = s.get("lagc", 300)
+    nxp = nx + 2 * pad
+    if lagc:
+        r = ctx.call("C05.agc", sut.voltage().agc, x, wl=lagc, si=1.0)
+        if r is ctx.CRASH:
+            return r
+        ok = isinstance(r, tuple) and len(r) == 2 and all(isinstance(a, np.ndarray) and a.shape == (nx, ns) for a in r)
+        if not ctx.check(ok, "C05.agc.shape", "agc does not return (data, gain) of the input shape"):
+            return ctx.CRASH
+        xf, gain = np.array(r[0], dtype=np.float64), np.array(r[1], dtype=np.float64)
+    else:
+        xf, gain = x.astype(np.float64), 1.0
+    if pad > 0:
+        xf = np.concatenate([xf[:pad][::-1], xf, xf[-pad:][::-1]], axis=0)
+    if tap > 0:
+        i = np.arange(nxp)
+        xf = xf * (_cos_ramp(0, tap, i) * (1 - _cos_ramp(nxp - tap, nxp, i)))[:, None]
+    xf = scipy.signal.sosfiltfilt(scipy.signal.butter(**copy.deepcopy(bk), output="sos"), xf, axis=0)
+    if pad > 0:
+        xf = xf[pad:nxp - pad]
+    return xf * gain
 
 
 def _per_group(ctx, kind, fn, x, coll, kw):
@@ -732,6 +1120,28 @@ def _drop(kw, *names):
     return {k: v for k, v in kw.items() if k not in names}
 
 
+def _kfilt_direct(ctx, Y, x, coll, s, dtype, scale):
+    """kfilt calls without collection (Y: their results written to the rows of each group) against the reference model."""
+    M = np.zeros(x.shape)
+    for c in np.unique(coll):
+        sel = coll == c
+        m = _kfilt_model(ctx, x[sel], s)
+        if m is ctx.CRASH:
+            return
+        M[sel] = m
+    if not np.all(np.isfinite(M)):
+        ctx.label("kfilt_model_not_finite")
+        return
+    ref = float(np.max(np.abs(M))) or scale
+    err = float(np.max(np.abs(np.asarray(Y, dtype=np.float64) - M))) / ref
+    ctx.stat("kfilt_model_rel_err_" + dtype, err)
+    ctx.label("kfilt_model", "kfilt_tap_" + ("default" if s.get("ntr_tap") is None else "0" if s["ntr_tap"] == 0 else "gt0"),
+              "kfilt_pad_" + ("0" if not s.get("ntr_pad") else "gt0"))
+    ctx.check(err <= TOL_KMODEL[dtype], "C05.kfilt_model",
+              lambda: f"kfilt({s}) on {x.shape[0]} channels x {x.shape[1]} samples differs by {err:.3g} of the output scale from "
+                      f"gain control -> mirrored padding -> cosine taper -> zero-phase Butterworth along channels -> crop -> gain")
+
+
 def _run_coll(case, ctx):
     vo = sut.voltage()
     fn_name, s = case["fn"], copy.deepcopy(case["s"])
@@ -748,6 +1158,14 @@ def _run_coll(case, ctx):
     if case["groups"]:
         ctx.label("coll_" + case["groups"]["mode"])
     fn = getattr(vo, fn_name)
+    tol = TOL_COLL if dtype == "f8" else 1e-6
+    # without groups the gain control works on (and needs to write to) the caller's array; with groups, or without gain
+    # control, and for car the unchanged code accepts read-only data
+    agc_on = fn_name != "car" and bool(s.get("lagc", 300 if fn_name == "kfilt" else 0.5))
+    layout = case.get("layout", "C")
+    if layout.startswith("ro") and coll is None and agc_on:
+        layout = "C"
+    ctx.label("layout_" + layout)
     nd = []   # non default settings that the recursion has to carry
     if fn_name == "car":
         if s.get("operator") == "average":
@@ -776,15 +1194,50 @@ def _run_coll(case, ctx):
     kwc = copy.deepcopy(s)
     if coll is not None:
         kwc["collection"] = coll.copy()
-    G = ctx.call(kind, fn, x.copy(), **kwc)
+        if case.get("coll_ro"):
+            kwc["collection"].flags.writeable = False
+            ctx.label("collection_readonly")
+    snap = copy.deepcopy(kwc)
+    G = ctx.call(kind, fn, _lay(x, layout), **kwc)
     if G is ctx.CRASH or not _shape_ok(ctx, G, (nc, ns), kind):
         return
+    _args_untouched(ctx, kwc, snap, fn_name)
+    if case.get("reuse"):
+        # the same option objects (dicts, lists, group vector) and the same data a second time, optionally after a call
+        # with other settings and other data of the same shape
+        ctx.label("reuse_" + case["reuse"])
+        if case["reuse"] == "polluted":
+            kw2 = copy.deepcopy(kwc)
+            if fn_name == "car":
+                kw2["operator"] = "average" if s.get("operator", "median") == "median" else "median"
+            elif fn_name == "kfilt":
+                kw2["lagc"] = None if s.get("lagc", 300) else 50
+                kw2["butter_kwargs"] = {"N": 2, "Wn": 0.3, "btype": "lowpass"}
+            else:
+                kw2["btype"] = "lowpass" if s.get("btype", "highpass").lower() in ("highpass", "hp") else "highpass"
+                kw2["vbounds"] = [2 * v for v in s["vbounds"]]
+            if ctx.call(kind, fn, np.array(x[::-1, ::-1] * 1.5, dtype=x.dtype, order="C"), **kw2) is ctx.CRASH:
+                return
+        G2 = ctx.call(kind, fn, _lay(x, layout), **kwc)
+        if G2 is ctx.CRASH or not _shape_ok(ctx, G2, (nc, ns), kind):
+            return
+        ok2, d2 = _same(G2, G, scale, TOL_REPEAT)
+        ctx.check(ok2, kind + ".repeat_call",
+                  lambda: f"{fn_name}: a second call with the same arguments"
+                          f"{' after a call with other settings' if case['reuse'] == 'polluted' else ''} differs from the first "
+                          f"by {d2:.3g} of the data scale ({s})")
+        _args_untouched(ctx, kwc, snap, fn_name)
+    E = None
+    if fn_name == "kfilt" and coll is None:
+        _kfilt_direct(ctx, G, x, np.zeros(nc), s, dtype, scale)
     dropped = []
     if coll is not None:
         E = _per_group(ctx, kind + ".single_group", fn, x, coll, s)
         if E is ctx.CRASH:
             return
-        ok, d = _same(G, E, scale)
+        if fn_name == "kfilt":
+            _kfilt_direct(ctx, E, x, coll, s, dtype, scale)
+        ok, d = _same(G, E, scale, tol)
         ctx.stat("coll_rel_diff_when_equal", d if ok else 0.0)
         if not ok:
             # diagnose: which setting did the recursion lose (one kind per root cause)
@@ -809,7 +1262,7 @@ def _run_coll(case, ctx):
                 A = _per_group(ctx, kind + ".single_group", fn, x, coll, _drop(s, *names))
                 if A is ctx.CRASH:
                     return
-                if _same(G, A, scale)[0]:
+                if _same(G, A, scale, tol)[0]:
                     dropped = kinds
                     break
             msg = (f"{fn_name}(x, collection={ng} groups {case['groups']['mode']}, {s}) differs from the same call on each "
@@ -848,11 +1301,13 @@ def _run_agc(case, ctx):
         a = int(rng.integers(0, ns // 2))
         x[:, a:a + max(1, ns // 3)] = 0
     x[case["zero_rows"]] = 0
-    x = x.astype(DT[dtype])
-    x0 = x.copy()
+    x0 = x.astype(DT[dtype])
+    layout = case.get("layout", "C")   # agc writes to its input by design: no read-only layout
+    x = _lay(x0, layout)
     nw = _ns_win(case["wl"], case["si"])
+    form = case.get("form", "explicit")
     ctx.label("t_agc", "dtype_" + dtype, "agc_win_1" if nw == 1 else ("agc_win_gt_ns" if nw > ns else "agc_win_lt_ns"),
-              "agc_eps_default" if case["eps"] is None else "agc_eps_given")
+              "agc_eps_default" if case["eps"] is None else "agc_eps_given", "layout_" + layout, "agc_form_" + form)
     if (ns + nw) in POW3:
         ctx.label("agc_pow3")
     if case["zero_rows"]:
@@ -860,7 +1315,9 @@ def _run_agc(case, ctx):
     if nw > 1 and np.any(x0):
         ctx.nontrivial = True
     kw = {} if case["eps"] is None else {"epsilon": case["eps"]}
-    r = ctx.call("C05.agc", vo.agc, x, wl=case["wl"], si=case["si"], **kw)
+    if form != "default":   # default form: agc(x) with the documented wl=0.5 s, si=0.002 s (251 samples)
+        kw.update({"wl": case["wl"], "si": case["si"]})
+    r = ctx.call("C05.agc", vo.agc, x, **kw)
     if r is ctx.CRASH:
         return
     ok = isinstance(r, tuple) and len(r) == 2 and all(isinstance(a, np.ndarray) and a.shape == (nc, ns) for a in r)
@@ -877,3 +1334,21 @@ def _run_agc(case, ctx):
     z = np.flatnonzero(~np.any(x0, axis=1))
     if z.size:
         ctx.check(not np.any(out[z]), "C05.agc_zero_channel", "an all-zero channel does not stay zero")
+    if case.get("again"):
+        # a second call, on what the first one returned (in this code base the caller's own array, gain-controlled in place)
+        ctx.label("agc_again")
+        x1 = np.array(out, order="C")
+        r = ctx.call("C05.agc", vo.agc, out, **kw)
+        if r is ctx.CRASH:
+            return
+        ok = isinstance(r, tuple) and len(r) == 2 and all(isinstance(a, np.ndarray) and a.shape == (nc, ns) for a in r)
+        if not ctx.check(ok, "C05.agc.shape", "agc does not return (data, gain) of the input shape"):
+            return
+        out2, gain2 = r
+        if not ctx.check(bool(np.all(np.isfinite(out2)) and np.all(np.isfinite(gain2))), "C05.agc.finite", "NaN/Inf in data or gain"):
+            return
+        scale1 = float(np.max(np.abs(x1))) or 1.0
+        err2 = float(np.max(np.abs(out2.astype(np.float64) * gain2 - x1))) / scale1
+        ctx.stat("agc_product_rel_" + dtype, err2)
+        ctx.check(err2 <= TOL_AGC[dtype], "C05.agc_product",
+                  lambda: f"second call: out * gain differs from the input by {err2:.3g} of the data scale (window {nw}, ns {ns})")
